@@ -756,7 +756,10 @@ func (w *World) Project() map[string]any {
 		sig, err := w.Raw.GetBlindSignature(o.B_)
 		if err == nil {
 			ks := reg.ksByReal[sig.Id]
-			sigs[o.ID] = map[string]any{"ks": ks, "amt": amtJSON(sig.Amount), "tag": SigTag(sig), "sec": o.Sec,
+			// amounts beyond what TLC's integers hold travel as decimal strings next to amt = 0 (MintAPI refuses such outputs, so a
+			// stored signature of that size is a mismatch in any case, not a value to compute with)
+			a, bg, _ := amtFacts(sig.Amount)
+			sigs[o.ID] = map[string]any{"ks": ks, "amt": a, "big": bg, "tag": SigTag(sig), "sec": o.Sec,
 				"lock": reg.Secrets[o.Sec].Lock}
 		}
 	}
@@ -813,11 +816,14 @@ func (w *World) Project() map[string]any {
 }
 
 // amtJSON keeps numbers TLC can hold as integers; anything larger travels as a decimal string.
+// amtJSON: totals the mint reports. A total beyond what TLC's integers hold cannot come from the small amounts the histories
+// use; it is reported as -1 (which equals nothing the specification computes) rather than as a string, which TLC refuses
+// to compare with a number.
 func amtJSON(v uint64) any {
 	if v < 1<<30 {
 		return int(v)
 	}
-	return fmt.Sprintf("%d", v)
+	return -1
 }
 
 // WriteTrace appends events as ndjson.
